@@ -28,6 +28,7 @@ global size_of usize == 8;
 //@include prelude/sem_elim_spec.rs
 //@include prelude/regions_spec.rs
 //@include prelude/elim_region_spec.rs
+//@include prelude/elim_decided_spec.rs
 
 impl DfsNodeData {
 //@assumed units/pwl_regions.rs | extract
@@ -226,9 +227,13 @@ impl AffTree<2> {
             && forall|h0: Map<usize, nat>, h1: Map<usize, nat>, x: V| #![trigger tree_fn(old(self).a(), h0, old(self).tree.root.unwrap(), x), tree_fn(final(self).a(), h1, old(self).tree.root.unwrap(), x)]
                 ranked_down(old(self).a(), h0) && ranked_down(final(self).a(), h1) && !blamed_path(old(self).a(), h0, old(self).tree.root.unwrap(), b, x)
                     ==> tree_fn(final(self).a(), h1, old(self).tree.root.unwrap(), x) == tree_fn(old(self).a(), h0, old(self).tree.root.unwrap(), x),
-        // C06 (idempotence): on a tree in which every node below the root already carries a verdict - e.g. the result of a run without LP errors -
+        // C06 (idempotence): on a tree in which every node the traversal can reach (below the root, no proper ancestor other than the root cached
+        // infeasible) already carries a verdict - e.g. the result of a run without LP errors -
         // the elimination changes nothing at all (no LP call is made, no state is written, nothing is removed)
         all_decided(old(self).a(), old(self).tree.root.unwrap()) ==> final(self).a() == old(self).a(),
+        // ... and a run during which the LP layer always decides (no Error, every Optimal point inside its polytope) ends in such a tree:
+        // together, a second run changes nothing
+        lp_decides() ==> all_decided(final(self).a(), old(self).tree.root.unwrap()),
         // COROLLARY - C03 for infeasible_elimination reduced to the soundness of the LP layer: if every Infeasible LP answer is right and no input reaches
         // a node cached infeasible at entry, the function is unchanged for EVERY input of the tree's dimension
         lp_sound(old(self).in_dim) && entry_marks_sound(old(self).a(), old(self).tree.root.unwrap()) ==>
@@ -246,7 +251,7 @@ impl AffTree<2> {
         let ghost mut vp: Map<usize, Polytope> = Map::<usize, Polytope>::empty();
         let ghost mut path: Seq<usize> = Seq::<usize>::empty();
         proof {
-            lemma_el_init(self.a(), root); lemma_sem_init(a0, hs, root);
+            lemma_el_init(self.a(), root); lemma_sem_init(a0, hs, root); lemma_kd_init(self.a(), root);
             lemma_gen_init(a0, iter, root);
             lemma_reg_init(a0, root);
             lemma_top_agrees(a0, self.a(), root, g_stack, vis, root, d0, self.in_dim);
@@ -271,6 +276,8 @@ impl AffTree<2> {
                 path.len() > 0 ==> path[0] == root,
                 regions_ok(a0, hs, root, vp, self.in_dim),
                 all_decided(a0, root) ==> self.a() == a0 && to_remove@.len() == 0,
+                kids_inv(self.a(), root, g_stack, vis, None), dec_inv(self.a(), root, vis, None),
+            ensures g_stack.len() == 0,
             decreases d0.len() - vis.len()
 //@hint loop 1 start
             let ghost s0 = g_stack;
@@ -283,6 +290,9 @@ impl AffTree<2> {
                 lemma_el_next(self.a(), root, s0, s1, lp1, data, vis0, d0);
                 vis = vis0.insert(data.index);
                 lemma_tr_mono(self.a(), tr0, vis0, vis);
+                lemma_el_clean_above(self.a(), root, s1, vis, d0, data.index);
+                lemma_kd_next(self.a(), root, s0, s1, lp1, data, vis0);
+                lemma_el_parent_visited(self.a(), root, s1, vis, data.index, d0, data.index);
                 assert(a0.dom().contains(data.index));
                 lemma_reg_next(a0, self.a(), root, s0, s1, lp1, data, vis0, d0);
                 let p1 = next_path(path, data);
@@ -294,6 +304,7 @@ impl AffTree<2> {
             let ghost g_next = iter;
 //@hint before#1 continue;
                 proof {
+                    lemma_kd_settle_keep(self.a(), root, s0, s1, lp1, data, vis);
                     lemma_el_settle(self.a(), root, s1, vis, data.index, d0);
                     g_stack = s1;
                     lemma_el_stack_ok(self.a(), root, g_stack, vis, root, d0);
@@ -303,6 +314,8 @@ impl AffTree<2> {
                     proof {
                         let s2 = iter.iter.stack@;
                         lemma_el_skip(self.a(), root, s0, s1, lp1, data, s2, iter.iter.last_push, vis0, d0);
+                        lemma_kd_skip_step(self.a(), root, s0, s1, lp1, data, s2, iter.iter.last_push, vis0, d0);
+                        lemma_kd_settle_skipped(self.a(), root, s2, vis, data.index);
                         lemma_el_settle(self.a(), root, s2, vis, data.index, d0);
                         g_stack = s2;
                         lemma_el_stack_ok(self.a(), root, g_stack, vis, root, d0);
@@ -312,6 +325,7 @@ impl AffTree<2> {
                     }
 //@hint before#3 continue;
                     proof {
+                        lemma_kd_settle_keep(self.a(), root, s0, s1, lp1, data, vis);
                         lemma_el_settle(self.a(), root, s1, vis, data.index, d0);
                         g_stack = s1;
                         lemma_el_stack_ok(self.a(), root, g_stack, vis, root, d0);
@@ -332,6 +346,7 @@ impl AffTree<2> {
                 proof {
                     s_cur = iter.iter.stack@;
                     lemma_el_skip(self.a(), root, s0, s1, lp1, data, s_cur, iter.iter.last_push, vis0, d0);
+                    lemma_kd_skip_step(self.a(), root, s0, s1, lp1, data, s_cur, iter.iter.last_push, vis0, d0);
                     lemma_reg_skip(a0, self.a(), s1, lp1, s_cur, iter.iter.last_push, vis);
                     lemma_gen_skip(a0, g_next, iter, path);
                 }
@@ -353,6 +368,14 @@ impl AffTree<2> {
                     vp = vp.insert(node_idx, poly);
                 }
                 lemma_reg_write(a0, a_b, self.a(), s_cur, vis, node_idx);
+                lemma_kd_write(a_b, self.a(), root, s_cur, vis, node_idx);
+                if skipped { lemma_kd_settle_skipped(self.a(), root, s_cur, vis, node_idx); }
+                else {
+                    assert(self.a()[node_idx].children == a_b[node_idx].children);
+                    assert(dfs_step(self.a(), s0, s1, lp1, Some(data)));
+                    assert(self.a()[node_idx].value.state is Indeterminate ==> !lp_decides());
+                    lemma_kd_settle_keep(self.a(), root, s0, s1, lp1, data, vis);
+                }
                 lemma_tr_write(a_b, self.a(), tr0, vis0, node_idx, skipped, label, parent_idx);
                 assert(to_remove@ =~= (if skipped { tr0.push((label, parent_idx)) } else { tr0 }));
             }
@@ -367,6 +390,8 @@ impl AffTree<2> {
                     lemma_tr_forward(a_f, self.a(), to_remove@, vis, root, parent_idx);
                     lemma_el_forward(a_f, self.a(), root, s_cur, vis, d0, parent_idx);
                     lemma_kept_pruned(a0, a_f, self.a(), self.in_dim, parent_idx, root);
+                    lemma_el_parent_visited(a_f, root, s_cur, vis, root, d0, parent_idx);
+                    lemma_kd_forward(a_f, self.a(), root, s_cur, vis, parent_idx);
                     lemma_fwd_slots(a_f, self.a(), root, parent_idx);
                     lemma_reg_forward(a0, a_f, self.a(), root, s_cur, vis, d0, parent_idx);
                 }
@@ -379,6 +404,7 @@ impl AffTree<2> {
 //@hint loop 1 after
         proof {
             lemma_el_stack_ok(self.a(), root, g_stack, vis, root, d0);
+            assert(g_stack =~= Seq::<DfsNodeData>::empty());
         }
 //@loop 2 contract
             invariant
@@ -389,11 +415,13 @@ impl AffTree<2> {
                 ranked_down(a0, hs), dec_one_row(a0), sem_inv(a0, hs, self.a(), root, b), blame_ok(a0, b, vp), tr_ok(self.a(), to_remove@, vis),
                 regions_ok(a0, hs, root, vp, self.in_dim), wf_at(a0, Some(root)),
                 all_decided(a0, root) ==> self.a() == a0 && to_remove@.len() == 0,
+                kids_inv(self.a(), root, Seq::<DfsNodeData>::empty(), vis, None), dec_inv(self.a(), root, vis, None),
             decreases to_remove@.len() - __j
 //@hint loop 2 after
         proof {
             lemma_sem_final(a0, hs, self.a(), root, b); lemma_regions_final(a0, hs, root, vp, self.in_dim);
             if lp_sound(self.in_dim) && entry_marks_sound(a0, root) { lemma_unconditional(a0, self.a(), root, b, vp, self.in_dim); }
+            if lp_decides() { lemma_kd_final(self.a(), root, vis); }
         }
 //@hint before let _ = self.tree.try_remove_child(node, label);
                 let ghost a_r = self.a();
@@ -407,6 +435,7 @@ impl AffTree<2> {
                         lemma_sem_remove(a0, hs, a_r, self.a(), root, b, node, label);
                     }
                     lemma_tr_remove(a_r, self.a(), to_remove@, vis, node, label, e);
+                    lemma_kd_remove(a_r, self.a(), root, vis, node, label, e);
                     lemma_kept_removed(a0, a_r, self.a(), self.in_dim, node, label, e);
                 }
 //@end
